@@ -6,6 +6,7 @@ import Omaha.Drv.Version
 import Omaha.Drv.Time
 import Omaha.Drv.Cup
 import Omaha.Drv.Request
+import Omaha.Drv.Response
 
 open Omaha Omaha.Drv
 
@@ -15,6 +16,7 @@ def handleLine (line : String) : String :=
   | "time" :: rest => handleTime rest
   | "cup" :: rest => handleCup rest
   | "wire-req" :: rest => handleRequest rest
+  | "resp" :: rest => handleResponse rest
   | _ => "bad-op"
 
 partial def loop (h : IO.FS.Stream) (out : IO.FS.Stream) : IO Unit := do
